@@ -250,7 +250,7 @@ func (r *Reconciler) commitChange(ctx context.Context, transaction *configapi.Tr
 			if err := r.updateConfigurationStatus(ctx, configuration); err != nil {
 				return controller.Result{}, false, err
 			}
-			return controller.Result{}, true, nil
+			return requeueNext(transaction), true, nil
 		}
 
 		// If validation fails any target, mark the Proposal FAILED.
@@ -273,7 +273,7 @@ func (r *Reconciler) commitChange(ctx context.Context, transaction *configapi.Tr
 			if err := r.updateConfigurationStatus(ctx, configuration); err != nil {
 				return controller.Result{}, false, err
 			}
-			return controller.Result{}, true, nil
+			return requeueNext(transaction), true, nil
 		}
 
 		// If validation is successful, mark the Proposal VALIDATED.
@@ -312,7 +312,7 @@ func (r *Reconciler) commitChange(ctx context.Context, transaction *configapi.Tr
 			if err := r.updateConfigurationStatus(ctx, configuration); err != nil {
 				return controller.Result{}, false, err
 			}
-			return controller.Result{}, true, nil
+			return requeueNext(transaction), true, nil
 		}
 	}
 	return controller.Result{}, false, nil
@@ -372,7 +372,7 @@ func (r *Reconciler) applyChange(ctx context.Context, transaction *configapi.Tra
 			if err := r.updateConfigurationStatus(ctx, configuration); err != nil {
 				return controller.Result{}, false, err
 			}
-			return controller.Result{}, true, nil
+			return requeueNext(transaction), true, nil
 		}
 
 		configuration.Applied.Target = transaction.ID.Index
@@ -470,7 +470,7 @@ func (r *Reconciler) applyChange(ctx context.Context, transaction *configapi.Tra
 				if err := r.updateConfigurationStatus(ctx, configuration); err != nil {
 					return controller.Result{}, false, err
 				}
-				return controller.Result{}, true, nil
+				return requeueNext(transaction), true, nil
 			}
 		}
 
@@ -511,7 +511,7 @@ func (r *Reconciler) applyChange(ctx context.Context, transaction *configapi.Tra
 			if err := r.updateConfigurationStatus(ctx, configuration); err != nil {
 				return controller.Result{}, false, err
 			}
-			return controller.Result{}, true, nil
+			return requeueNext(transaction), true, nil
 		}
 	}
 	return controller.Result{}, false, nil
@@ -585,7 +585,7 @@ func (r *Reconciler) commitRollback(ctx context.Context, transaction *configapi.
 		if err := r.updateTransactionStatus(ctx, transaction); err != nil {
 			return controller.Result{}, false, err
 		}
-		return controller.Result{}, true, nil
+		return requeueNextChange(transaction, configuration), true, nil
 	}
 	return controller.Result{}, false, nil
 }
@@ -642,7 +642,7 @@ func (r *Reconciler) applyRollback(ctx context.Context, transaction *configapi.T
 				if err := r.updateConfigurationStatus(ctx, configuration); err != nil {
 					return controller.Result{}, false, err
 				}
-				return controller.Result{}, true, nil
+				return requeueNext(transaction), true, nil
 			}
 			return controller.Result{}, false, nil
 		case configapi.TransactionPhaseStatus_IN_PROGRESS:
@@ -665,7 +665,7 @@ func (r *Reconciler) applyRollback(ctx context.Context, transaction *configapi.T
 				if err := r.updateConfigurationStatus(ctx, configuration); err != nil {
 					return controller.Result{}, false, err
 				}
-				return controller.Result{}, true, nil
+				return requeueNext(transaction), true, nil
 			}
 			// The change was applied and recorded in the configuration, but a failure occurred before the
 			// transaction status could be updated: complete the change apply so the rollback can proceed.
@@ -674,7 +674,7 @@ func (r *Reconciler) applyRollback(ctx context.Context, transaction *configapi.T
 			if err := r.updateTransactionStatus(ctx, transaction); err != nil {
 				return controller.Result{}, false, err
 			}
-			return controller.Result{}, true, nil
+			return requeueNext(transaction), true, nil
 		case configapi.TransactionPhaseStatus_ABORTED, configapi.TransactionPhaseStatus_FAILED:
 			// If the change apply has been marked aborted or failed, ensure the applied configuration
 			// status is updated. This is necessary in the event a failure occurs after aborting/failing
@@ -686,7 +686,7 @@ func (r *Reconciler) applyRollback(ctx context.Context, transaction *configapi.T
 				if err := r.updateConfigurationStatus(ctx, configuration); err != nil {
 					return controller.Result{}, false, err
 				}
-				return controller.Result{}, true, nil
+				return requeueNext(transaction), true, nil
 			}
 		}
 
@@ -724,8 +724,11 @@ func (r *Reconciler) applyRollback(ctx context.Context, transaction *configapi.T
 			return controller.Result{}, false, nil
 		}
 
-		// Update the applied target index and mark the rollback apply phase IN_PROGRESS.
+		// Update the applied target index and mark the rollback apply phase IN_PROGRESS. From here on the applied index
+		// names this transaction (the applied target is the revision being restored), so that configuration events -
+		// the completion of a synchronization in particular - wake the transaction whose rollback is being applied.
 		configuration.Applied.Target = transaction.Status.Rollback.Index
+		configuration.Applied.Index = transaction.ID.Index
 		if err := r.updateConfigurationStatus(ctx, configuration); err != nil {
 			return controller.Result{}, false, err
 		}
@@ -843,7 +846,7 @@ func (r *Reconciler) applyRollback(ctx context.Context, transaction *configapi.T
 				if err := r.updateTransactionStatus(ctx, transaction); err != nil {
 					return controller.Result{}, false, err
 				}
-				return controller.Result{}, true, nil
+				return requeueNext(transaction), true, nil
 			}
 		}
 
@@ -1105,6 +1108,28 @@ func (r *Reconciler) updateConfigurationStatus(ctx context.Context, configuratio
 		return nil
 	}
 	return nil
+}
+
+// requeueNext re-queues the transaction that follows this one in the log. Every path that ends a stage of a
+// transaction (complete, failed, aborted) moves the committed or applied ordinal on; the configuration event that
+// write produces only wakes the transactions named by the committed and applied targets, i.e. this one.
+func requeueNext(transaction *configapi.Transaction) controller.Result {
+	return controller.Result{
+		Requeue: controller.NewID(configapi.TransactionID{
+			Target: transaction.ID.Target,
+			Index:  transaction.ID.Index + 1,
+		}),
+	}
+}
+
+// requeueNextChange re-queues the next change waiting to be committed once a rollback has been committed.
+func requeueNextChange(transaction *configapi.Transaction, configuration *configapi.Configuration) controller.Result {
+	return controller.Result{
+		Requeue: controller.NewID(configapi.TransactionID{
+			Target: transaction.ID.Target,
+			Index:  configuration.Committed.Change + 1,
+		}),
+	}
 }
 
 func now() *time.Time {
